@@ -484,12 +484,22 @@ func (af *AdaptationField) SetHasTransportPrivateData(value bool) error {
 	if err := af.valid(); err != nil {
 		return err
 	}
-	delta := 1 * af.bitDelta(5, 0x02, value)
-	err := af.resizeAF(af.transportPrivateDataStart(), delta)
-	if err != nil {
-		return err
+	if value == af.hasTransportPrivateData() {
+		// nothing changes, the existing field (if any) is kept as it is
+		return nil
 	}
-	af[af.transportPrivateDataStart()] = 0 // zero length by default
+	start := af.transportPrivateDataStart()
+	if value {
+		if err := af.resizeAF(start, 1); err != nil {
+			return err
+		}
+		af[start] = 0 // zero length by default
+	} else {
+		// remove the length byte together with the data that follows it
+		if err := af.resizeAF(start, -af.transportPrivateDataLength()); err != nil {
+			return err
+		}
+	}
 	af.setBit(5, 0x02, value)
 	return nil
 }
@@ -542,12 +552,22 @@ func (af *AdaptationField) SetHasAdaptationFieldExtension(value bool) error {
 	if err := af.valid(); err != nil {
 		return err
 	}
-	delta := 1 * af.bitDelta(5, 0x01, value)
-	err := af.resizeAF(af.adaptationExtensionStart(), delta)
-	if err != nil {
-		return err
+	if value == af.hasAdaptationFieldExtension() {
+		// nothing changes, the existing field (if any) is kept as it is
+		return nil
 	}
-	af[af.adaptationExtensionStart()] = 0
+	start := af.adaptationExtensionStart()
+	if value {
+		if err := af.resizeAF(start, 1); err != nil {
+			return err
+		}
+		af[start] = 0 // zero length by default
+	} else {
+		// remove the length byte together with the data that follows it
+		if err := af.resizeAF(start, -af.adaptationExtensionLength()); err != nil {
+			return err
+		}
+	}
 	af.setBit(5, 0x01, value)
 	return nil
 }
